@@ -276,9 +276,9 @@ pub fn handle(op: &str, a: &[&str]) -> Option<Resp> {
 }
 
 const NAMES: [&str; 5] = ["A", "Source", "X-Y", "~k", "A"];
-const LVALS: [&str; 14] = [
+const LVALS: [&str; 18] = [
     "", "b", "b ", "é 😀", "x: y", "a # b", "#c", ":d", "l1\nl2", "\nl2", "l1\nl2 \nl3", "\nx: y\n:z",
-    "l1\n.\nl3", "1.0-1",
+    "l1\n.\nl3", "1.0-1", "\u{a0}x", "a\u{b}b\n\u{3000}c", "\u{feff}y", "z\u{2028}w\n\u{c}v",
 ];
 const BADVALS: [&str; 8] = ["a\n", "\n", " a", "a\n b", "a\n\nb", "a\r", "a\n#b", "a\rb"];
 
